@@ -127,6 +127,8 @@ def rebuild(desc, opts_override=None):
     for t in desc["targets"]:
         if t[0] == "gas":
             tg.append(ebisim.Element.get_gas(int(t[1]), t[2], dev.r_dt, t[3], cx=bool(t[4])))
+        elif t[0] == "explicit":
+            tg.append(ebisim.Element.get(int(t[1]), n=np.asarray(t[2], float), kT=np.asarray(t[3], float), cx=bool(t[4])))
         else:
             tg.append(ebisim.Element.get_ions(int(t[1]), t[2], t[3], int(t[4]), cx=bool(t[5])))
     bg = [BackgroundGas.get(int(z), p, T) for z, p, T in desc["gases"]]
